@@ -256,3 +256,24 @@ def both_forms(f):
   nf = normal_form(f)
   if nf is not f.node:
     yield from walk_function(nf)
+
+
+def deref_deep(f, expr, depth: int = 3):
+  """A copy of `expr` in which every local with exactly one plain assignment
+  is replaced by the assigned expression, recursively (named intermediate
+  results read as the expression they name)."""
+  import copy  # pylint: disable=g-import-not-at-top
+
+  class T(ast.NodeTransformer):
+
+    def __init__(self, d):
+      self.d = d
+
+    def visit_Name(self, node):
+      if isinstance(node.ctx, ast.Load) and self.d > 0:
+        v = deref(f, node, 1)
+        if v is not node:
+          return T(self.d - 1).visit(copy.deepcopy(v))
+      return node
+
+  return T(depth).visit(copy.deepcopy(expr))
